@@ -477,6 +477,7 @@ def inputs(tier: str):
     if tier == "quick":
         groups = {
             "string ids differing in punctuation only": list(string_id_specs(3)),
+            "names and kinds that look like markup": list(gen.plain_specs(3, min_n=1, alphabet=("<init>", "a&b"))) + [gen.Spec(tuple((p, lab, d, ("<requires>", "k1")[i % 2]) for i, (p, lab, d, _k) in enumerate(s.nodes)), typed=True) for s in gen.plain_specs(2, min_n=1, alphabet=("<lambda>", "b"))],
             "non-ASCII names and kinds": list(gen.plain_specs(3, min_n=1, alphabet=("Zürich", "日本"))) + [gen.Spec(tuple((p, lab, d, ("zubehör", "k1")[i % 2]) for i, (p, lab, d, _k) in enumerate(s.nodes)), typed=True) for s in gen.plain_specs(3, min_n=1, alphabet=("Zürich", "b"))],
             "plain": list(gen.plain_specs(4)),
             "typed": list(gen.typed_specs(3, alphabet=("a", "b", "c"))) + list(gen.typed_specs(4, min_n=4)),
@@ -487,6 +488,7 @@ def inputs(tier: str):
     else:
         groups = {
             "string ids differing in punctuation only": list(string_id_specs(4)),
+            "names and kinds that look like markup": list(gen.plain_specs(3, min_n=1, alphabet=("<init>", "a&b"))) + [gen.Spec(tuple((p, lab, d, ("<requires>", "k1")[i % 2]) for i, (p, lab, d, _k) in enumerate(s.nodes)), typed=True) for s in gen.plain_specs(2, min_n=1, alphabet=("<lambda>", "b"))],
             "non-ASCII names and kinds": list(gen.plain_specs(4, min_n=1, alphabet=("Zürich", "日本"))) + [gen.Spec(tuple((p, lab, d, ("zubehör", "k1")[i % 2]) for i, (p, lab, d, _k) in enumerate(s.nodes)), typed=True) for s in gen.plain_specs(3, min_n=1, alphabet=("Zürich", "b"))],
             "plain": list(gen.plain_specs(5)),
             "typed": list(gen.typed_specs(4, alphabet=("a", "b", "c"))),
